@@ -8,6 +8,7 @@ import RbV.Lemmas.Fenwick
 import RbV.Thm.GenSrcFenwick
 import RbV.Thm.GenSrcBitEnc
 import RbV.Thm.GenSrcBitEncOps
+import RbV.Thm.GenSrcSmallInts
 /-!
 # C18 — bit-packed containers behave exactly like plain vectors
 
@@ -365,5 +366,72 @@ example : Gen.SrcBitEnc.get [690262600, 920350141, 3510] 3 7 24 30 24 = Rs.Res.o
 example : Gen.SrcBitEnc.set [5] 3 7 1 30 10 1 = Rs.Res.panic := by decide
 
 end bitenc_ops_source
+
+/-! ## SmallInts: function bodies translated from the source text (session 4, genbits)
+
+`RbV/Gen/SrcSmallInts.lean` (regenerated from `src/data_structures/smallints.rs` on every `./check C18` / `./check C03`):
+`real_value`, `get`, `push`, `set`, `from_elem`, `len`.  `S`, `B` are type variables and `cast`, `S::max_value()`, `<`,
+`size_of` abstract parameters of the translated functions; the theorems instantiate them as the mirror model reads them
+(`cBS lo hi = cast` into the range `[lo, hi]`, `cSB = some`, `S::max_value() = hi`).  The `BTreeMap` is the association
+list of `Rs.mapInsert` / `Rs.mapGet`.  Proofs: `RbV/Thm/GenSrcSmallInts.lean`. -/
+section smallints_source
+open RbV.Spec.SmallInts RbV.Thm.GenSrcSmallInts
+open RbV.Model.SmallInts (St)
+
+/-- `fn real_value` and `SmallInts::get`, as written, are the model's (`get`: every index, `None` beyond the end) -/
+theorem smallints_get_source_eq_model (lo hi : Int) (sS sB : Nat) (s : St) (i : Nat) :
+    (∀ v, Gen.SrcSmallInts.realValue (cBS lo hi) cSB (cZ lo hi) ltI hi sS sB s.small s.big i v
+      = Rs.Res.ok (Model.SmallInts.realValue hi s i v)) ∧
+    Gen.SrcSmallInts.get (cBS lo hi) cSB (cZ lo hi) ltI hi sS sB s.small s.big i
+      = Rs.Res.ok (Model.SmallInts.get hi s i) :=
+  ⟨fun v => realValue_eq_model lo hi sS sB s i v, get_eq_model lo hi sS sB s i⟩
+
+/-- **`SmallInts::push`, as written** (`match cast(v) { Some(v) if v < maxv => …, _ => … }`) **is the model's `push`** -/
+theorem smallints_push_source_eq_model (lo hi : Int) (sS sB : Nat) (s : St) (v : Int) :
+    Gen.SrcSmallInts.push (cBS lo hi) cSB (cZ lo hi) ltI hi sS sB s.small s.big v
+      = Rs.Res.ok ((Model.SmallInts.push lo hi s v).small, (Model.SmallInts.push lo hi s v).big) :=
+  push_eq_model lo hi sS sB s v
+
+/-- **`SmallInts::set`, as written, is the model's `set`** for an existing index; beyond the end it panics -/
+theorem smallints_set_source_eq_model (lo hi : Int) (sS sB : Nat) (s : St) (i : Nat) (v : Int) :
+    (i < s.small.length → Gen.SrcSmallInts.set (cBS lo hi) cSB (cZ lo hi) ltI hi sS sB s.small s.big i v
+      = Rs.Res.ok ((Model.SmallInts.set lo hi s i v).small, (Model.SmallInts.set lo hi s i v).big)) ∧
+    (s.small.length ≤ i → Gen.SrcSmallInts.set (cBS lo hi) cSB (cZ lo hi) ltI hi sS sB s.small s.big i v
+      = Rs.Res.panic) :=
+  ⟨set_eq_model lo hi sS sB s i v, set_oob_panics lo hi sS sB s i v⟩
+
+/-- `SmallInts::from_elem`, as written: builds the model's state under its assertions, refuses `S::max_value()` -/
+theorem smallints_from_elem_source_eq_model (lo hi : Int) (h0 : lo ≤ 0 ∧ 0 < hi) (sS sB : Nat) (hsz : sS < sB) (n : Nat) :
+    (∀ v, (0 < v → v < hi) → Gen.SrcSmallInts.fromElem (cBS lo hi) cSB (cZ lo hi) ltI hi sS sB v n
+      = Rs.Res.ok ((Model.SmallInts.fromElem v n).small, (Model.SmallInts.fromElem v n).big)) ∧
+    Gen.SrcSmallInts.fromElem (cBS lo hi) cSB (cZ lo hi) ltI hi sS sB hi n = Rs.Res.panic :=
+  ⟨fun v hv => fromElem_eq_model lo hi ⟨h0.1, by omega⟩ sS sB hsz v n hv, fromElem_max_panics lo hi h0 sS sB hsz n⟩
+
+/-- **generated code refines the plain vector**: any history whose `set`s address existing elements, run with the
+translated operations from the empty object, does not panic; its final length is the spec vector's and the translated
+`get` returns the spec vector's element at every index (`None` beyond the end).  (`run_eq_model` ∘ `smallints_refines`.) -/
+theorem smallints_source_refines (lo hi : Int) (sS sB : Nat) (ops : List Op) (hok : OpsOk [] ops) :
+    ∃ small big, ops.foldlM (srcStep lo hi sS sB) ([], []) = Rs.Res.ok (small, big) ∧
+      Gen.SrcSmallInts.len (cBS lo hi) cSB (cZ lo hi) ltI hi sS sB small big
+        = Rs.Res.ok (ops.foldl specStep []).length ∧
+      ∀ i, Gen.SrcSmallInts.get (cBS lo hi) cSB (cZ lo hi) ltI hi sS sB small big i
+        = Rs.Res.ok ((ops.foldl specStep [])[i]?) := by
+  have hrun := run_eq_model lo hi sS sB ops Model.SmallInts.new [] (Lemmas.SmallInts.abs_new hi) hok
+  have href := smallints_refines lo hi ops
+  refine ⟨_, _, hrun, ?_, fun i => ?_⟩
+  · rw [len_eq_model, href.1]
+  · rw [get_eq_model, href.2.1 i]
+
+-- non-vacuity: i8 range; the history of the `smallints_refines` example
+example : [Op.push 126, .push 127, .push 128, .push (-129), .set 1 5, .set 0 1000, .set 0 (-7), .set 2 127].foldlM
+    (srcStep (-128) 127 1 8) ([], []) = Rs.Res.ok ([-7, 5, 127, 127], [(2, 127), (0, 1000), (3, -129), (2, 128), (1, 127)]) := by
+  decide
+example : OpsOk [] [Op.push 126, .push 127, .push 128, .push (-129), .set 1 5, .set 0 1000, .set 0 (-7), .set 2 127] := by
+  simp [OpsOk, specStep]
+example : Gen.SrcSmallInts.get (cBS (-128) 127) cSB (cZ (-128) 127) ltI 127 1 8 [-7, 5, 127, 127]
+    [(2, 127), (0, 1000), (3, -129), (2, 128), (1, 127)] 3 = Rs.Res.ok (some (-129)) := by decide
+example : Gen.SrcSmallInts.fromElem (β := Int) (cBS (-128) 127) cSB (cZ (-128) 127) ltI 127 1 8 127 3 = Rs.Res.panic := by decide
+
+end smallints_source
 
 end RbV.Thm.C18
